@@ -86,10 +86,17 @@ pub(super) fn write_ht(
         sent += 1;
     }
 
+    // make sure that all write requests succeeded.
+    let mut result = Ok(());
     while sent > 0 {
-        io_handle.recv().unwrap();
+        // UNWRAP: we receive only what we sent. No `RecvErr` expected.
+        let completion = io_handle.recv().unwrap();
+        if result.is_ok() {
+            result = completion.result;
+        }
         sent -= 1;
     }
+    result?;
 
     #[cfg(feature = "verif-hooks")]
     let vt = crate::verif::before(crate::verif::IoOp::Fsync {
